@@ -390,7 +390,7 @@ fn mutate_dir(d: &mut MDir, rng: &mut Rng, n_leaves: usize) -> String {
             if j < d.target.len() {
                 d.target[j] = None;
             }
-            d.lens[j] = d.lens[i] + rng.range(1, 40);
+            d.lens[j] = d.lens[i].wrapping_add(rng.range(1, 40));
             format!("alias-offset[{i},{j}]")
         }
         10 if n > 0 => {
